@@ -286,7 +286,7 @@ def call_external(h: Any, name: str, args: List[AV], kwargs: Dict[str, AV], node
         ctx.log.append(("extcall", short, tuple(args), tuple(sorted(kwargs.items())), i.site(node)))
         subject = args[1] if len(args) > 1 else kwargs.get("string")
         ks = h.json_kind(subject) if subject is not None else None
-        if ks is not None and ks != "str":
+        if (ks is not None and ks != "str") or isinstance(subject, (Inst, IntV, PyList, PyTuple, PyDict, EnumV)):
             raise h.raise_("TypeError", "expected string or buffer", node)
         r = ctx.choose(("regex", short, ctx.new_id()), ["match", "nomatch", "regex.error"])
         if r == "regex.error":
@@ -295,6 +295,12 @@ def call_external(h: Any, name: str, args: List[AV], kwargs: Dict[str, AV], node
         ctx.world[("truth", "term", t.id)] = r == "match"
         return t
     if short in ("json.dumps",):
+        if len(args) == 1 and isinstance(args[0], Const) and isinstance(args[0].value, str) and set(kwargs) <= {"ensure_ascii"} and all(isinstance(v, Const) for v in kwargs.values()):
+            # A2: model of json.dumps on a constant string
+            from .rules._strmodel import model_json_dumps
+
+            ea = kwargs.get("ensure_ascii", Const(True)).value
+            return Const(model_json_dumps(args[0].value, bool(ea)))
         return Term("json.dumps", tuple(args) + tuple(sorted(kwargs.items())), ctx.new_id())
     if short.startswith("typing.") or short in ("abc.ABC",):
         return ExternalV(short)
@@ -528,6 +534,8 @@ def call_method(h: Any, recv: AV, name: str, args: List[AV], kwargs: Dict[str, A
             if name == "join":
                 kind, payload = h.iterate(args[0], node)
                 if kind == "concrete":
+                    if all(isinstance(x, Const) and isinstance(x.value, str) for x in payload):
+                        return Const(recv.value.join(x.value for x in payload))
                     return Term("join", (recv, tuple(payload)), ctx.new_id())
                 return Term("join", (recv, args[0]), ctx.new_id())
             return Term("strmeth", (recv, name, tuple(args)), ctx.new_id())
